@@ -153,15 +153,14 @@ func (c RawConfiguration) handleCorrectableCall(ctx context.Context, corr *Corre
 				break
 			}
 			replies[r.nid] = r.msg
-			if resp, rlevel, quorum = state.data.QuorumFunction(state.data.Message, replies); quorum {
-				if quorum {
-					corr.set(r.msg, rlevel, nil, true)
-					return
-				}
-				if rlevel > clevel {
-					clevel = rlevel
-					corr.set(r.msg, rlevel, nil, false)
-				}
+			resp, rlevel, quorum = state.data.QuorumFunction(state.data.Message, replies)
+			if quorum {
+				corr.set(resp, rlevel, nil, true)
+				return
+			}
+			if rlevel > clevel {
+				clevel = rlevel
+				corr.set(resp, rlevel, nil, false)
 			}
 		case <-ctx.Done():
 			corr.set(resp, clevel, QuorumCallError{cause: ctx.Err(), errors: errs, replies: len(replies)}, true)
